@@ -105,7 +105,20 @@ type trieCaseJSON struct {
 	Scaffold   string   `json:"scaffold,omitempty"`
 }
 
-func eqVal(a, b interface{}) bool { return reflect.DeepEqual(a, b) }
+func eqVal(a, b interface{}) bool {
+	// fast paths for the common value types
+	switch x := a.(type) {
+	case nil:
+		return b == nil
+	case int32:
+		y, ok := b.(int32)
+		return ok && x == y
+	case string:
+		y, ok := b.(string)
+		return ok && x == y
+	}
+	return reflect.DeepEqual(a, b)
+}
 
 func valKey(v interface{}) string { return fmt.Sprintf("%T:%v", v, v) }
 
